@@ -14,6 +14,10 @@ from pathlib import Path
 sys.path.insert(0, str(Path(__file__).resolve().parent))
 import core  # noqa: E402
 
+import warnings  # noqa: E402
+warnings.filterwarnings("ignore", category=SyntaxWarning)      # ast.literal_eval on generated marker literals such as '\\h'
+warnings.filterwarnings("ignore", category=DeprecationWarning)
+
 
 class Prop:
     """Base class of a property module (harness/props/Cxx.py defines ``PROP = SomeProp()``)."""
